@@ -33,7 +33,7 @@ def _ops() -> Dict[str, Callable[[Any, str], Any]]:
         with contextlib.redirect_stdout(io.StringIO()):
             cp.get_critical_path_breakdown()
             cp.summary()
-        return ok
+        return cp
 
     def call_graph(ta, d):
         from hta.common.trace_call_graph import CallGraph
@@ -117,3 +117,83 @@ def base_digest(ta) -> str:
         rows.sort()
         h.update(json.dumps([int(r), rows]).encode())
     return h.hexdigest()[:20]
+
+
+# ---------------------------------------------------------------------------------------------------------------------------------
+# Digests of what a call returned (for the isolation check, spec/Sessions.tla): canonical, independent of symbol-id numbering
+def canon(x: Any) -> Any:
+    import pandas as pd
+    if x is None:
+        return None
+    if isinstance(x, pd.DataFrame):
+        d = x.reset_index(drop=isinstance(x.index, pd.RangeIndex))
+        cols = [str(c) for c in d.columns]
+        rows = [[None if (isinstance(v, float) and v != v) else (round(v, 6) if isinstance(v, float) else str(v)) for v in r]
+                for r in d.itertuples(index=False)]
+        return [cols, rows]
+    if isinstance(x, pd.Series):
+        return canon(x.to_frame())
+    if isinstance(x, dict):
+        return {str(k): canon(v) for k, v in sorted(x.items(), key=lambda kv: str(kv[0]))}
+    if isinstance(x, (list, tuple)):
+        return [canon(v) for v in x]
+    if isinstance(x, float):
+        return None if x != x else round(x, 6)
+    if isinstance(x, (int, str, bool)):
+        return x
+    return str(type(x).__name__)
+
+
+def result_digest(op: str, ta, res: Any, d: str) -> str:
+    """What the call produced: its return value, or - for calls that work through side effects - the thing they made."""
+    r0 = _r0(ta)
+    st = ta.t.symbol_table.get_sym_table()
+    df = ta.t.get_trace(r0)
+    if op == "with_counters":
+        import gzip
+        src = ta.t.trace_files[r0]
+        p = src.replace(".json", "_with_counters.json")
+        raw = open(p, "rb").read()
+        what: Any = json.loads(gzip.decompress(raw) if raw[:2] == b"\x1f\x8b" else raw)["traceEvents"]
+    elif op == "decode_names":
+        what = [[int(i), str(a), str(b)] for i, a, b in zip(df["index"], df["s_name"], df["s_cat"])]
+    elif op == "call_graph":
+        cols = [c for c in ["index", "parent", "depth", "height", "num_kernels", "kernel_dur_sum", "first_kernel_start", "last_kernel_end", "kernel_span"] if c in df.columns]
+        what = canon(df[cols].sort_values("index"))
+    elif op == "critical_path":
+        cp = res
+        with contextlib.redirect_stdout(io.StringIO()):
+            bd = cp.get_critical_path_breakdown()
+        what = {"nodes": [[int(n.idx), int(n.ev_idx), float(n.ts), bool(n.is_start)] for n in cp.node_list],
+                "edges": sorted([int(u), int(v), float(dd["weight"]), str(dd["object"].type.value)] for u, v, dd in cp.edges(data=True)),
+                "path": [int(n) for n in cp.critical_path_nodes], "events": sorted(int(x) for x in cp.critical_path_events_set),
+                "pedges": sorted([int(e.begin), int(e.end)] for e in cp.critical_path_edges_set),
+                "bd": None if bd is None else canon(bd[["event_idx", "duration", "type", "bound_by"]])}
+    else:
+        what = canon(res)
+    return hashlib.sha1(json.dumps(what, sort_keys=True, default=str).encode()).hexdigest()[:20]
+
+
+SIDE_EFFECT_OPS = {"with_counters", "decode_names", "call_graph"}      # they work through the object / the folder, not a returned value
+
+
+def run_ops(ta, ops: List[str], d: str, retain: Any = None) -> List[Dict[str, str]]:
+    """`retain`: a list that receives (op, returned value) so that the value can be digested again later."""
+    global OPS
+    if OPS is None:
+        OPS = _ops()
+    out = []
+    os.makedirs(d, exist_ok=True)
+    for op in ops:
+        rec = {"op": op, "dig": "", "err": ""}
+        try:
+            res = OPS[op](ta, d)
+            rec["dig"] = result_digest(op, ta, res, d)
+            if retain is not None:
+                retain.append((op, res))
+        except BaseException as ex:
+            rec["err"] = f"{type(ex).__name__}: {str(ex)[:120]}".replace('"', "'").replace("\\", "/").replace("\n", " ")
+        if retain is not None and rec["err"]:
+            retain.append((op, None))
+        out.append(rec)
+    return out
